@@ -2,9 +2,10 @@
 use crate::core::Prop;
 
 pub mod c10;
+pub mod prog;
 
 pub fn all() -> Vec<&'static dyn Prop> {
-    vec![&c10::C10]
+    vec![&prog::C01, &prog::C02, &prog::C03, &prog::C08, &c10::C10]
 }
 
 pub fn find(id: &str) -> Option<&'static dyn Prop> {
